@@ -95,6 +95,12 @@ int main(int argc, char **argv)
 	strcpy(keys[1], "a"); strcpy(keys[2], "ab"); strcpy(keys[3], "abc"); strcpy(keys[4], "abd");
 	strcpy(keys[5], "b"); strcpy(keys[6], "\x80z"); strcpy(keys[7], "~");
 	strcpy(keys[8], "ab"); for (int i = 2; i < 40; i++) keys[8][i] = 'q'; keys[8][40] = 0;
+	if (!strcmp(impl, "hash")) {
+		/* the hashtable knows nothing of prefixes; what matters there is which keys share a bucket chain.  With the
+		 * 16 buckets of qb_hashtable_create(8): keys 1-4 share one chain, 5 and 6 another, 7 and 8 are alone */
+		strcpy(keys[1], "a"); strcpy(keys[2], "e"); strcpy(keys[3], "ao"); strcpy(keys[4], "br");
+		strcpy(keys[5], "b"); strcpy(keys[6], "l"); strcpy(keys[7], "\x80z");
+	}
 	int ghosty = strcmp(impl, "skip") != 0;   /* the recorded finding concerns hashtable and trie */
 	FILE *f = fopen(argv[1], "r");
 	if (!f) { perror(argv[1]); return 2; }
